@@ -3,6 +3,7 @@ package html
 import (
 	"bytes"
 	"fmt"
+	"sort"
 	"strings"
 	"testing"
 
@@ -16,9 +17,10 @@ import (
 //	    fragment language around '&', numeric/named references and the escaped
 //	    characters.
 //	(b) for every tag, comment and doctype token the tokenizer produces on the
-//	    C39 corpus (extended by two numeric references, the only way to get CR
-//	    or a leading space into token data): tokenizing tok.String() yields
-//	    exactly one token, equal in type, data, atom and attributes.
+//	    C39 corpus and on tag/comment/doctype templates filled with values
+//	    that contain character references (the only way to get CR, a leading
+//	    space or '>' into token data): tokenizing tok.String() yields exactly
+//	    one token, equal in type, data, atom and attributes.
 //	(c) a programmatically built tree with a text T and an attribute value V
 //	    under an ordinary element: Parse(Render(tree)) has the same element
 //	    skeleton (no additional element, comment or attribute) and the same
@@ -35,10 +37,16 @@ var c40EscAlphabet = []string{
 
 // ---- (b)
 
-var c40TokExtra = []string{"&#13;", "&#32;"}
+// c40TokValues are spliced into the templates below, so that references,
+// CR, NUL, leading spaces and comment/doctype delimiters reach token data.
+var c40TokValues = []string{
+	"&amp;", "amp;", "&lt;", "&gt;", "&#13;", "&#32;", "&", ";", "#", "<", ">", "\"", "'", "-", "!",
+	" ", "\r", "\n", "\x00", "x", "=", "/", "&#", "3",
+}
 
-func c40TokAlphabet() []string {
-	return append(append([]string{}, c39Alphabet...), c40TokExtra...)
+var c40TokTemplates = [][2]string{
+	{"<a b=\"", "\">"}, {"<a b='", "' c>"}, {"<a b=", ">"}, {"<!--", "-->"}, {"<!DOCTYPE ", ">"}, {"<!DOCTYPE", ">"},
+	{"<?", ">"}, {"</a ", ">"}, {"<a", ">"}, {"<a ", "=x/>"},
 }
 
 type c40TokCase struct {
@@ -46,6 +54,7 @@ type c40TokCase struct {
 	Opener int   `json:"opener,omitempty"`
 	Tail   int   `json:"tail,omitempty"`
 	Attrs  bool  `json:"attrs_corpus,omitempty"`
+	Tmpl   int   `json:"template,omitempty"` // values part: index+1 into the templates
 }
 
 func c40TokEqual(a, b Token) bool {
@@ -68,10 +77,10 @@ func c40DataClass(t Token) string {
 		s += a.Key + a.Val
 	}
 	switch {
+	case t.Type == DoctypeToken && (strings.HasPrefix(t.Data, " ") || strings.HasPrefix(t.Data, "\n") || strings.HasPrefix(t.Data, "\t")):
+		return "data-with-leading-space"
 	case strings.Contains(s, "\r"):
 		return "data-with-CR"
-	case strings.HasPrefix(t.Data, " ") || strings.HasPrefix(t.Data, "\n") || strings.HasPrefix(t.Data, "\t"):
-		return "data-with-leading-space"
 	case strings.Contains(s, "\x00"):
 		return "data-with-NUL"
 	case strings.Contains(s, "�"):
@@ -163,14 +172,16 @@ type c40TreeCase struct {
 	Mode  int   `json:"mode"` // 0: V=T=x; 1: only the text is x (V="v"); 2: only the attribute is x (T="t")
 }
 
-// c40Norm applies the normalisations the property allows: CRLF and CR become
-// LF; NUL is dropped (text in HTML content) or replaced by U+FFFD (attribute
-// values) — both are mapped to nothing. The value alphabet has no U+FFFD.
+// c40Norm applies the normalisations the property allows, in the order the
+// parser applies them: NUL is dropped (text in HTML content) or replaced by
+// U+FFFD (attribute values) — both are mapped to nothing; then CRLF and CR
+// become LF. (The order matters: CR NUL LF is CR LF once the NUL is gone.) The
+// value alphabet has no U+FFFD.
 func c40Norm(s string) string {
+	s = strings.ReplaceAll(s, "\x00", "")
+	s = strings.ReplaceAll(s, "\ufffd", "")
 	s = strings.ReplaceAll(s, "\r\n", "\n")
 	s = strings.ReplaceAll(s, "\r", "\n")
-	s = strings.ReplaceAll(s, "\x00", "")
-	s = strings.ReplaceAll(s, "�", "")
 	return s
 }
 
@@ -187,9 +198,14 @@ func c40Dump(sb *strings.Builder, n *Node, budget *int) {
 		sb.WriteString("#doc")
 	case ElementNode:
 		fmt.Fprintf(sb, "<%s:%s", n.Namespace, n.Data)
+		// attribute order is not part of the property (the parser sorts the
+		// attributes of formatting elements): compare as a sorted list
+		var attrs []string
 		for _, a := range n.Attr {
-			fmt.Fprintf(sb, " %s:%s=%q", a.Namespace, a.Key, c40Norm(a.Val))
+			attrs = append(attrs, fmt.Sprintf(" %s:%s=%q", a.Namespace, a.Key, c40Norm(a.Val)))
 		}
+		sort.Strings(attrs)
+		sb.WriteString(strings.Join(attrs, ""))
 		sb.WriteString(">")
 	case CommentNode:
 		fmt.Fprintf(sb, "#comment(%q)", n.Data)
@@ -243,7 +259,7 @@ func c40CheckTree(w *vx.W, x c40TreeCase) {
 	}
 	// a sibling after the target shows that nothing leaks out of it
 	tail := c40New(atom.Div)
-	el.Parent.AppendChild(tail)
+	body.AppendChild(tail)
 	tail.AppendChild(&Node{Type: TextNode, Data: "end"})
 
 	var buf bytes.Buffer
@@ -316,7 +332,8 @@ func c40Idx(n int) []int {
 
 func TestVerif_C40(t *testing.T) {
 	vx.Run(t, "C40", func(c *vx.Ctx) {
-		tokAl := c40TokAlphabet()
+		tokAl := c39Alphabet
+		valDepth := vx.Pick(c, 3, 4)
 		escDepth := vx.Pick(c, 5, 6)
 		tokDepth := vx.Pick(c, 4, 5)
 		attrDepth := vx.Pick(c, 4, 5)
@@ -325,10 +342,10 @@ func TestVerif_C40(t *testing.T) {
 		for _, s := range c40Shapes {
 			shapeNames = append(shapeNames, s.name)
 		}
-		c.Rule(fmt.Sprintf("(a) escape: every concatenation s of <= %d fragments of %q: UnescapeString(EscapeString(s)) == s, and EscapeString(s) contains none of < > \" ' CR. "+
-			"(b) token-string: every input of <= %d fragments of %q and every attrs input (C39 openers %q + <= %d fragments of %q + tails) is tokenized (context \"\", CDATA off); every StartTag/EndTag/SelfClosingTag/Comment/Doctype token must satisfy: NewTokenizer(tok.String()) yields one token equal in Type, Data, DataAtom and Attr and then EOF. "+
-			"(c) render-parse: tree html>head,body>SHAPE[title=V id=z]>text T followed by a sibling div, SHAPE in %q, value x = every concatenation of <= %d fragments of %q (for shapes p and div up to %d fragments), modes V=T=x / T=x / V=x; Parse(Render(tree)) must equal the tree (elements, namespaces, attribute keys in order, values, text) modulo CR/CRLF->LF and NUL (dropped or U+FFFD). non-trivial = a non-text token round-tripped (b), the tree comparison was reached (c), the string contained an escaped character or '&' (a)",
-			escDepth, c40EscAlphabet, tokDepth, tokAl, c39AttrOpeners, attrDepth, c39AttrAlphabet, shapeNames, treeAll, c40ValAlphabet, treeDeep))
+		c.Rule(fmt.Sprintf("(a) escape: every concatenation s of <= %d fragments of %q: UnescapeString(EscapeString(s)) == s, and EscapeString(s) contains none of < > \" ' (its documented contract). "+
+			"(b) token-string: every input of <= %d fragments of the C39 alphabet %q, every attrs input (C39 openers %q + <= %d fragments of %q + tails) and every template %q filled with <= %d fragments of %q is tokenized (context \"\", CDATA off); every StartTag/EndTag/SelfClosingTag/Comment/Doctype token must satisfy: NewTokenizer(tok.String()) yields one token equal in Type, Data, DataAtom and Attr and then EOF. "+
+			"(c) render-parse: tree html>head,body>SHAPE[title=V id=z]>text T followed by <div>end</div> in body, SHAPE in %q, value x = every concatenation of <= %d fragments of %q (for shapes p and div up to %d fragments), modes V=T=x / T=x / V=x; Parse(Render(tree)) must equal the tree (elements, namespaces, attribute set, values, text) modulo CR/CRLF->LF and NUL (dropped or U+FFFD). non-trivial = a non-text token round-tripped (b), the tree comparison was reached (c), the string contained an escaped character or '&' (a)",
+			escDepth, c40EscAlphabet, tokDepth, tokAl, c39AttrOpeners, attrDepth, c39AttrAlphabet, c40TokTemplates, valDepth, c40TokValues, shapeNames, treeAll, c40ValAlphabet, treeDeep))
 		c.Assume("(c) covers text and attribute values under ordinary HTML elements only: raw-text (script, style, xmp, iframe, noembed, noframes, noscript), escapable raw-text (title, textarea), plaintext, void elements, pre/listing/textarea (leading-newline rule), template, foreign (svg/math) content and text directly under body/html/table are excluded, as are the badly-formed trees described in Render's doc comment (nested <a>, <a> under <table>, …); U+FFFD and invalid UTF-8 are not in the value alphabet")
 		c.Assume("(b) compares only the first token's Type/Data/DataAtom/Attr and requires EOF after it; text tokens are outside the property statement")
 
@@ -342,8 +359,8 @@ func TestVerif_C40(t *testing.T) {
 				w.Failf("C40/escape/unescape-of-escape-differs", "s=%q EscapeString=%q UnescapeString=%q", s, e, u)
 				return
 			}
-			if strings.ContainsAny(e, "<>\"'\r") {
-				w.Failf("C40/escape/special-character-left-unescaped", "s=%q EscapeString=%q still contains one of < > \" ' CR", s, e)
+			if strings.ContainsAny(e, "<>\"'") {
+				w.Failf("C40/escape/special-character-left-unescaped", "s=%q EscapeString=%q still contains one of < > \" '", s, e)
 				return
 			}
 			if e != s {
@@ -391,6 +408,19 @@ func TestVerif_C40(t *testing.T) {
 			b := []byte(c39AttrOpeners[x.Opener])
 			b = append(b, c39Join(c39AttrAlphabet, x.Idx)...)
 			c40CheckTokens(w, append(b, c39AttrTails[x.Tail]...))
+		})
+		vx.Enumerate(c, "token-string-values", vx.Opts{}, func(yield func(c40TokCase) bool) {
+			vx.Strings(c40Idx(len(c40TokValues)), 0, valDepth, func(s []int) bool {
+				for t := range c40TokTemplates {
+					if !yield(c40TokCase{Idx: s, Tmpl: t + 1}) {
+						return false
+					}
+				}
+				return true
+			})
+		}, func(w *vx.W, x c40TokCase) {
+			t := c40TokTemplates[x.Tmpl-1]
+			c40CheckTokens(w, []byte(t[0]+string(c39Join(c40TokValues, x.Idx))+t[1]))
 		})
 		vx.Enumerate(c, "token-string", vx.Opts{}, func(yield func(c40TokCase) bool) {
 			vx.Strings(c40Idx(len(tokAl)), 0, tokDepth, func(s []int) bool { return yield(c40TokCase{Idx: s}) })
